@@ -14,6 +14,7 @@ class Prop:
     rule = ""               # how cases are generated / what counts as non-trivial
     deadline = 20.0
     extra_theorem_files = []  # other Properties/*.v whose obligations this property also relies on
+    layouts = False           # True: generated cases are spread over memory layouts of their input arrays (core.lay); run() must honour case["layout"]
     translators = []          # models regenerated from the source on every run (core.TRANSLATORS) whose equivalence proofs are re-checked
 
     def cases(self, rng, tier):
@@ -147,8 +148,13 @@ def run_check(P, tier="quick", seed=0, max_search_s=None):
     gen_errors = 0
     par = getattr(P, "parallel", 0) if tier == "thorough" else 0
     todo = []
+    gidx = 0
     for src, it in (("corpus", corpus_cases(P.pid)), ("gen", P.cases(rng, tier))):
         for case in it:
+            if src == "gen" and P.layouts and "layout" not in case:
+                gidx += 1
+                lo = core.LAYOUTS[gidx % len(core.LAYOUTS)]
+                if lo: case["layout"] = lo
             k = _case_key(case)
             if k in seen:
                 continue
@@ -241,6 +247,10 @@ def run_check(P, tier="quick", seed=0, max_search_s=None):
         for case in chain():
             if time.time() - t_search > budget:
                 break
+            if P.layouts and "layout" not in case:
+                gidx += 1
+                lo = core.LAYOUTS[gidx % len(core.LAYOUTS)]
+                if lo: case["layout"] = lo
             k = _case_key(case)
             if k in seen:
                 continue
